@@ -84,6 +84,32 @@ def run(tier, rng, C):
     for g in differing[:3]:
         path = C.write_replay("C10", {"property": "C10", "case": "container %s pubs#%d pretty=%s" % g, "clause": "Debug output depends on the secret contents"})
         print("VIOLATION property=C10 replay=%s" % path.replace(C.VERIF + "/", ""))
+    # error values that carry an unusable reply (its raw bytes): no recognisable part of the secrets in their Debug / Display
+    elines = []
+    esecs = []
+    for secs in secret_sets(rng, tier):
+        if all(len(x.encode("utf-8")) >= 8 for x in secs):
+            for pr in "01":
+                elines.append("DBGERR %s %s" % (pr, C.tlist(secs)))
+                esecs.append(secs)
+    eouts = C.run_impl(elines)
+    eleaks = []
+    for l, secs, o in zip(elines, esecs, eouts):
+        if not o.startswith("x"):
+            raise RuntimeError("DBGERR answered %r" % o[:80])
+        ob = C.untb(o)
+        for s in secs:
+            # the visible (printable ASCII) stretches of the secret, as a reader would recognise them
+            import re as _re
+            for part in _re.findall(rb"[\x21-\x7e]{6,}", s.encode("utf-8")):
+                if grams(part, 6) & grams(ob, 6):
+                    eleaks.append((l, s[:40]))
+                    break
+    for l, s in eleaks[:3]:
+        path = C.write_replay("C10", {"property": "C10", "case": l, "clause": "a window of >= 6 visible bytes of a secret occurs in the Debug/Display output of an error value carrying the reply", "secret_prefix": s})
+        print("VIOLATION property=C10 replay=%s" % path.replace(C.VERIF + "/", ""))
+    v += len(eleaks)
+    stats["error_value_checks"] = len(elines)
     v += len(leaks) + len(differing)
     stats["secret_window_checks"] = len(lines)
     stats["output_groups_compared"] = len(groups)
